@@ -1,5 +1,5 @@
 ENGINES = [
-    {'name': 'E1-enum', 'path': 'mc/engine_enum.py', 'serves_properties': ['C01', 'C02', 'C04', 'C05', 'C06', 'C09', 'C12', 'C19'],
+    {'name': 'E1-enum', 'path': 'mc/engine_enum.py', 'serves_properties': ['C01', 'C02', 'C04', 'C05', 'C06', 'C09', 'C12', 'C13', 'C19'],
      'kind_free_text': 'sharded exhaustive enumeration of a finite input/configuration space of the real code against a reference model'},
     {'name': 'E2-bfs', 'path': 'mc/engine_bfs.py', 'serves_properties': ['C03', 'C04', 'C05', 'C15', 'C16'],
      'kind_free_text': 'explicit-state breadth-first search over live implementation objects (state = replayable operation history, canonicalised from the complete vars() of the objects), level-parallel'},
@@ -68,3 +68,9 @@ CHECKS['C16'] = dict(
     technique='breadth-first search over edit/observe operation histories of a live MidiFile with a differential oracle (same observation on a freshly built file)',
     text='All histories up to depth 4 (5 thorough) of 15 edit kinds interleaved with 5 observations (iterate, length, merged_track, save, play on a fake clock) are executed on a live MidiFile; after every step every observation must equal the one obtained from MidiFile(type, ticks_per_beat, tracks=deep copy). No hand-written expectation is involved.',
     note='State = complete vars() of the MidiFile (cache fields included); tracks bounded at 2 x 3 messages for expansion; one value per edit kind.')
+
+CHECKS['C13'] = dict(
+    engine='E1-enum', category='exploration', design_ref='DESIGN.md 5/C13',
+    technique='exhaustive enumeration of small files against an exact rational tempo-map integral, and deviation-bounded enumeration of consumer-delay / sleep-overshoot patterns for play() on a harness-owned clock',
+    text='Every file over 5 ticks_per_beat values and tracks of bounded length over {note, three set_tempo values, text} x three deltas is iterated and measured; cumulative times are compared with the exact Fraction integral of the tempo map. play() runs on a fake clock (now= and the module time.sleep replaced) under every set of <= 2 deviations from the default environment (consumer delays, sleep overshoots): never early, no drift, sleeps end exactly on the schedule, meta filter. The tick/second grid is enumerated completely for the listed values.',
+    note='Float comparison tolerance 1e-9 relative; track lengths bounded (3/2 quick, 4/2 thorough); deviation bound 2.')
